@@ -21,7 +21,7 @@ def plan(pid, tier, seed):
     else:
         mc = [
             {"module": "Arch", "cfg": "Arch_MC_quick.cfg", "emit": True, "sample": 12000, "properties": PROPS, "timeout": 900},
-            {"module": "Arch", "cfg": "Arch_MC_merge_quick.cfg", "emit": True, "sample": 26000, "properties": PROPS, "timeout": 900},
+            {"module": "Arch", "cfg": "Arch_MC_merge.cfg", "emit": True, "sample": 26000, "properties": PROPS, "timeout": 900},
             {"module": "Arch", "cfg": "Arch_Gen_nested.cfg", "emit": True, "sample": 24000, "properties": PROPS, "timeout": 900},
             {"module": "Arch", "cfg": "Arch_MC_thorough.cfg", "emit": False, "properties": PROPS, "timeout": 2400},
             {"module": "Arch", "cfg": "Arch_MC_rel2.cfg", "emit": False, "properties": PROPS, "timeout": 2400},
@@ -44,12 +44,14 @@ def case_from_tlc(obj, h, g):
     return {"case": "tlc-" + h, "input": inp}
 
 
-def _t(pkg, name, impls=(), ext="", fields=(), calls=(), main_calls=()):
+def _t(pkg, name, impls=(), ext="", fields=(), calls=(), main_calls=(), other=()):
     ms = []
     if calls:
         ms.append({"name": "run", "calls": [{"pkg": p, "node": n} for p, n in calls]})
     if main_calls:
         ms.append({"name": "main", "calls": [{"pkg": p, "node": n} for p, n in main_calls]})
+    for mname, cs in other:
+        ms.append({"name": mname, "calls": [{"pkg": p, "node": n} for p, n in cs]})
     return {"pkg": list(pkg), "name": name, "impls": list(impls), "ext": ext,
             "fields": [{"pkg": p, "node": n} for p, n in fields], "methods": ms}
 
@@ -67,6 +69,12 @@ def fixed_cases(pid, tier, seed):
         # every kind of relation, self relations, main method
         "kinds": [_t(["a"], "A", impls=["a.I"], ext="b.B", fields=[("a", "A")], calls=[("a", "A"), ("b", "C"), ("x", "E")], main_calls=[("b", "D")]),
                   _t(["a"], "I"), _t(["b"], "B"), _t(["b"], "C"), _t(["b"], "D", calls=[("a", "Main")]), _t(["a"], "Main", fields=[("b", "B")])],
+        # several items of one kind in one class; method and type names that only resemble main / Main
+        "several": [_t(["a"], "A", impls=["a.I", "b.J", "x.K"], ext="b.B", fields=[("b", "J"), ("a", "AppMain"), ("b", "B")],
+                       calls=[("b", "C"), ("a", "I")], main_calls=[("b", "D")],
+                       other=[("mainLoop", [("b", "D"), ("b", "C")]), ("Main", [("a", "MainApp")]), ("main", [("b", "E")])]),
+                    _t(["a"], "I"), _t(["b"], "J"), _t(["b"], "B"), _t(["b"], "C"), _t(["b"], "D"), _t(["b"], "E"),
+                    _t(["a"], "AppMain", ext="a.MainApp"), _t(["a"], "MainApp", fields=[("a", "A")]), _t(["b"], "main", impls=["a.I", "a.A"])],
         # nested packages and the unnamed package
         "nested": [_t(["a"], "A", fields=[("a.b", "B")]), _t(["a", "b"], "B", fields=[("", "C")]), _t([], "C", fields=[("a", "A")], impls=["D"]),
                    _t([], "D", ext=".C")],
